@@ -331,6 +331,7 @@ func defaultMembers(tier string, cfg gen.Config) []member {
 		&fam.Spec{Kind: "array", Items: &fam.Spec{Kind: "string"}, Default: "slice", Kw: []string{"minItems"}},
 		&fam.Spec{Kind: "object", Default: "map", Props: []*fam.Prop{{Label: "k", Spec: &fam.Spec{Kind: "string"}}}},
 		&fam.Spec{Kind: "object", AddProps: "string", Default: "map"},
+		&fam.Spec{Kind: "object", Default: "map"}, // a property-less object: a named map type with an object default
 		&fam.Spec{Kind: "string", Enum: "strings", Default: "scalar"},
 	)
 	for _, sp := range specs {
